@@ -41,9 +41,24 @@ func run(c *hlib.Ctx) {
 		lakeh.RunExhaustive(c, lakeh.Options{Prop: "C14", StopOnFail: true}, nil,
 			[]string{"La", "Lb", "D1", "Da", "W", "C", "V"}, c.N(2, 3))
 	}
+	// delete-where on one deleter thread (compiler.Parallelism = 1): the survivors of all touched
+	// objects reach the rewriting writer one whole object after another, i.e. NOT in key order
+	// when the objects overlap; multi-value overlapping objects (threshold >= 40 bytes),
+	// predicates on the non-key field v.
+	if c.Want("delwhere1") {
+		lakeh.RunExhaustiveCfg(c, lakeh.Options{Prop: "C14", StopOnFail: true}, nil,
+			[]string{"La", "Ld", "Lb", "Wv", "W", "C"}, c.N(3, 3), 40, 1)
+		dw := map[string]int{"load": 40, "delwhere": 40, "delete": 6, "compact": 8, "vacuum": 2}
+		lakeh.RunPlan(c, lakeh.Plan{
+			Opt:         lakeh.Options{Prop: "C14", StopOnFail: true},
+			Profiles:    []lakeh.Profile{{Name: "c14-delwhere-par1", W: dw, MaxOps: 9, Guarded: true, MinThresh: 40}},
+			Quick:       40, Thorough: 600,
+			Parallelism: 1,
+		})
+	}
 	lakeh.RunPlan(c, lakeh.Plan{
 		Opt:      lakeh.Options{Prop: "C14", Determinism: 2, Reopen: true, StopOnFail: true},
 		Profiles: []lakeh.Profile{guarded, guarded, open},
-		Quick:    70, Thorough: 1500,
+		Quick:    60, Thorough: 1300,
 	})
 }
